@@ -37,6 +37,11 @@ PLANS = {
                   ("c05_ck3", ("delimited",), session_check.READ_ACTIONS, None, None, None),
                   ("c05_ck4", ("delimited",), session_check.READ_ACTIONS, None, None, None),
                   ("c05_uu", ("delimited",), session_check.READ_ACTIONS, None, None, None),
+                  # a validation limit below the number of rows, the reader iterated to its end: the checks at the end speak
+                  # about the rows that reached them
+                  ("c05_lim_ck1", ("delimited",), session_check.READ_ACTIONS, 3000, None, None),
+                  ("c05_lim_ck4", ("delimited",), session_check.READ_ACTIONS, 3000, None, None),
+                  ("c05_lim_ck7", ("delimited",), session_check.READ_ACTIONS, 3000, None, None),
                   # "of the same data set": readers created early and read after other data sets went through the CID
                   ("c08_park2", ("delimited",), RW + ["Park", "Resume"], 3000, None, None)],
         "thorough": [("c08_park2", BOTH, RW + ["Park", "Resume"], None, None, None)] + [("c05_ck%d" % n, BOTH, session_check.READ_ACTIONS, None, None, None) for n in range(1, 9)]
@@ -47,7 +52,9 @@ PLANS = {
         "quick": [("c06_reader", ("delimited",), session_check.READ_ACTIONS + ["ReaderFault"], None, None, None),
                   ("c04_h0", ("fixed",), session_check.READ_ACTIONS + ["ReaderFault"], None, None, None),
                   # the modes also agree when only a prefix of the rows is validated
-                  ("c07_h1", ("delimited",), session_check.READ_ACTIONS, None, None, None)],
+                  ("c07_h1", ("delimited",), session_check.READ_ACTIONS, None, None, None),
+                  # ... and for readers that were created before other readers of the CID were read (one reader per mode)
+                  ("c08_park2", ("delimited",), RW + ["Park", "Resume"], 3000, None, None)],
         "thorough": [("c07_h1_t5", BOTH, session_check.READ_ACTIONS, None, None, None), ("c06_reader", BOTH, session_check.READ_ACTIONS + ["ReaderFault"], None, None, None),
                      ("c06_reader_h0", BOTH, session_check.READ_ACTIONS + ["ReaderFault"], None, None, None),
                      ("c04_quick", BOTH, session_check.READ_ACTIONS + ["ReaderFault"], None, None, None),
